@@ -116,6 +116,14 @@ func NewConsumerGroup(parent, fanOutPath string, q FanOutQueue) (ConsumerGroup, 
 			// a group that was stopped while the queue moved on: keep acknowledged <= consumed
 			consumedSeq = ackSeq
 		}
+		// a group that was stopped while the queue's index was reset to an earlier sequence:
+		// keep acknowledged <= consumed <= appended
+		if appendedOfQueue := q.Queue().AppendedSeq(); consumedSeq > appendedOfQueue {
+			consumedSeq = appendedOfQueue
+			if ackSeq > consumedSeq {
+				ackSeq = consumedSeq
+			}
+		}
 	}
 	// persist metadata
 	metaPage.PutUint64(uint64(consumedSeq), consumerGroupConsumedSeqOffset)
